@@ -17,7 +17,7 @@ from .. import observe as ob
 from ..gtext import inv, cigar_complement, cigar_reflen, cigar_qlen
 
 PROP = "C06"
-RUNS = {"quick": 20000, "thorough": 1500000}
+RUNS = {"quick": 20000, "thorough": 700000}
 WALL = {"quick": 280, "thorough": 3500}
 RULE = ("one run = GFA1 (with lengths and specified overlaps) or GFA2 document, scheduled delivery, "
         "conversion, restart at vlevel 3, conversion back; distinct = distinct (document digest, how) pairs")
